@@ -91,8 +91,11 @@ def endian_configs(ctx):
 
 
 def scratch_root():
-    # /tmp, outside /repo and /verif; removed in the finally blocks below
-    return tempfile.mkdtemp(prefix="c20_", dir="/tmp")
+    # /tmp, outside /repo and /verif; removed in the finally blocks below.  World-searchable (mkdtemp makes it 0700): grid G runs the
+    # installed program with an unprivileged uid, and only the directories a case restricts may stand between that uid and the path
+    top = tempfile.mkdtemp(prefix="c20_", dir="/tmp")
+    os.chmod(top, 0o755)
+    return top
 
 
 def helper_args(helpers):
@@ -105,7 +108,7 @@ def helper_args(helpers):
 def order_key(v):
     a = v.get("args") or []
     try:
-        n = {"short": 0, "natural": 0, "max": 10 ** 6, "first": 0, "middle": 1, "last-dir": 2, "file": 3, "states": 0, "all": 10 ** 6}.get(a[3])
+        n = {"short": 0, "natural": 0, "max": 10 ** 6, "first": 0, "middle": 1, "last-dir": 2, "file": 3, "states": 0, "all": 10 ** 6, "none": -1}.get(a[3])
         return (v["sig"], a[1], int(a[2]), int(a[3]) if n is None else n)
     except Exception:
         return (v["sig"], " ".join(a), 0, 0)
@@ -126,6 +129,7 @@ def run(ctx):
         for k in range(n):
             r = os.path.join(top, "w%03d" % k)  # fixed width: the root length is part of the total path length
             os.mkdir(r)
+            os.chmod(r, 0o755)
             roots.append(r)
         jobs = [(lambda k=k: ctx.run_harness(driver, ["--root", roots[k]] + helper_args(helpers) +
                                              ["--tier", ctx.tier, "--shard", str(k), str(n), "--deadline", str(int(stop_at))],
@@ -141,7 +145,7 @@ def run(ctx):
     ctx.samples = []
     esamples = sorted(v for v in ctx.samples if v.startswith("[endianness configuration"))[:3]
     ctx.samples = []
-    for g in "ABCDEF":
+    for g in "ABCDEFG":
         ctx.samples += [v for v in allsamples if v.startswith("[grid %s," % g)][:2]
     ctx.samples += esamples[:12 - len(ctx.samples)]
 
@@ -170,6 +174,15 @@ def run(ctx):
         "backslash, ..\\x, .. + 0xff, . + UTF-8, .. + newline, '.. (deleted)', '..' + 253 letters (NAME_MAX), 255 dots, a.b, a..b, a...b, v1.2.3, a., a.., name., name.., "
         "name..., .a., ..a.., .a..b.} x position {EVERY one of the depth+1 components (each directory level and the program name), all components at once} among "
         "ordinary 3..6-byte names x depth %s x invocation %s%s; oracle unchanged (exact install path, grandparent + '/', sanitizer clean). "
+        "Grid G = ACCESS CONTEXT of the calling process relative to its install path: which directory of the path is restricted {none, %s, every directory} x "
+        "rights the calling uid keeps there {--- (directory mode 0700), r-- may list but not search (0744), --x may search but not list (0711)} x mode of the program "
+        "file {0755, 0111 execute-only} x launch {root: started by root and staying root (baseline, modes do not bind root); drop: started by root by absolute path, the "
+        "PROGRAM does setgroups(0)/setgid/setuid to 65534 before calling; fexecve: the parent opens the file O_PATH while root, drops, fexecve(fd); procfd: same with "
+        "execv(/proc/self/fd/N); cwd: the parent chdirs into the program's directory while root, drops, execv(./name); owner-revokes: path and file owned by 65534, "
+        "started by it by absolute path, the PROGRAM fchmods the directory to 0000/0400/0100 before calling} x install path representative %s; no chroot, no namespaces. "
+        "For every case the driver asks the kernel (a probe child with the same credentials opens the path O_PATH) whether the install path can still be walked and "
+        "checks that and the uid/gid/groups the program reported against its permission model (mismatch = harness error); cases whose exec the kernel refuses (cwd launch "
+        "into a directory the caller may not search) are counted in cases_not_startable and are not part of the space. Oracle unchanged: the path the driver created. "
         "The requested length is spread evenly over the depth+1 names (each 1..255 bytes); (depth, length) cells that no such split reaches are counted in "
         "cells_not_creatable / cases_not_creatable and are not part of the space. "
         "endianness() is in addition decided per BUILD CONFIGURATION (endian_probe.cpp, one translation unit each): what is seen before xtl/xplatform.hpp "
@@ -183,10 +196,14 @@ def run(ctx):
            ((", all three", "total length {natural (depth 4 between opt/local/app/bin/prog), 1023, 1024, 2048, 4095 (depth 17, plain padding)}", "as grid A",
              "{3,4,8,17,40,100}", "all 6", "as grid A",
              "{short depth 2, one 255-byte name among short ones, total 1024 at depth 8, total 4095 at depth 40}", "{direct, relative, symlink to the file}",
-             "{1,2,3,4,5,8,17}", "as grid A", ", plus every position at depth 17 with the other names padded (plain) to a total length of {1024, 4095}") if thorough else
+             "{1,2,3,4,5,8,17}", "as grid A", ", plus every position at depth 17 with the other names padded (plain) to a total length of {1024, 4095}",
+             "every single directory (depth <= 8; first / middle / the program's own at depth 40)",
+             "{short plain depth 3, one 255-byte name among short ones highbytes depth 3, total 1024 spaces depth 8, short special depth 3, leading-dot depth 1, total 4095 utf8 depth 40}") if thorough else
             ("", "natural length (depth 4 between opt/local/app/bin/prog)", "{direct, symlink to the file}", "{3,8}", "{plain, spaces, highbytes}",
              "{direct, symlink to the file}", "{short depth 2, one 255-byte name among short ones, total 1024 at depth 8}", "{direct}",
-             "{1,4}", "{direct, symlink to the file}", ""))))
+             "{1,4}", "{direct, symlink to the file}", "",
+             "the first / the middle / the program's own directory",
+             "{short plain depth 3, one 255-byte name among short ones highbytes depth 3, total 1024 spaces depth 8}"))))
     ctx.assumptions += [
         "endianness configurations only use macro sets that real platforms define consistently with a little-endian target (both constants + the selector); a lone 'this target is big endian' flag (__BIG_ENDIAN__, __ARMEB__, ...) is never defined: that would misdescribe the target and is out of scope",
         "the oracle is the path the driver created (canonical scratch root + the names it generated); it is never read back from the program under test",
@@ -197,6 +214,11 @@ def run(ctx):
         "AddressSanitizer (recover mode, stack redzones) is the observer for 'without reading or writing outside its internal buffer'; an access that stays inside a redzone-free neighbouring object of the same frame would not be seen",
         "name lengths inside one path are uniform (+-1) in grids A/B; grid D adds exactly one 255-byte name among short ones; other length mixtures are not enumerated",
         "the property quantifies over install paths of a program: every evaluation is a process started from an installed file that stays where it is; renaming or moving the running binary (or one of its parent directories) between two calls is a relocation of a running process, not an install path, and is not enumerated (repeated calls without relocation are: grid E state called-before)",
+        "grid G: 'a path the platform allows' includes paths that the CALLING credentials cannot walk or list at the time of the call, as long as the process was legitimately "
+        "started from there and nothing is moved (privilege drop after start, start through an inherited fd or cwd, the owner revoking its own rights); the install path and the "
+        "file stay where they are for the whole run (unlike a relocation, which stays out of scope). Only the uid/gid pair 65534 with no supplementary groups is used as the "
+        "unprivileged identity; group-based rights, ACLs, capabilities dropped while staying uid 0, chroot / mount namespaces and LSM policies are not enumerated; when the check "
+        "does not run as root only the owner-revokes launch exists (reported as a cap)",
         "grids C and F put one special name (or the same special name everywhere) into a path of otherwise ordinary names; paths mixing two different special names are not enumerated",
     ]
     ctx.note("prefix_path() failures on a case where executable_path() itself failed are folded into the executable_path violation (same defect), "
@@ -212,6 +234,7 @@ def replay(ctx, rec):
     try:
         root = os.path.join(top, "w000")
         os.mkdir(root)
+        os.chmod(root, 0o755)
         ctx.run_harness(driver, ["--root", root] + helper_args(helpers) + ["--tier", rec.get("tier", ctx.tier)] + list(rec["args"]),
                         tag="c20-driver")
     finally:
